@@ -91,8 +91,19 @@ def configure(G, ex, st, ctx, case):
     ex.store(st, Ptr(impl, tb + T['count_mode'][0]), 2, case['mode'])
     ex.store(st, Ptr(impl, tb + T['pause'][0]), 2, 0)
     ex.store(st, Ptr(impl, tb + T['update_mmio'][0]), 2, 1)
-    # second timer paused, audio ports disabled (constructor state)
-    ex.store(st, Ptr(impl, tb + T['_size'][0] + T['pause'][0]), 2, 1)
+    # second timer: paused (constructor state), or - 't1' cases - auto-restarting with a small period and not routed to the
+    # core: it never interrupts, but it caps every skip horizon, so the fast-forward runs in several pieces
+    t1 = tb + T['_size'][0]
+    if case.get('t1') is None:
+        ex.store(st, Ptr(impl, t1 + T['pause'][0]), 2, 1)
+    else:
+        c1, s1 = case['t1']
+        ex.store(st, Ptr(impl, t1 + T['pause'][0]), 2, 0)
+        ex.store(st, Ptr(impl, t1 + T['count_mode'][0]), 2, 1)
+        ex.store(st, Ptr(impl, t1 + T['update_mmio'][0]), 2, 1)
+        ex.store(st, Ptr(impl, t1 + T['counter'][0]), 4, c1)
+        ex.store(st, Ptr(impl, t1 + T['start_low'][0]), 2, s1)
+        ex.store(st, Ptr(impl, t1 + T['start_high'][0]), 2, 0)
     off, sz, c_, stride = L['ICU']['enabled']
     ex.store(st, Ptr(impl, G.off['icu'] + off), 8, 1 << 0xA)
     # CPU: pc at the idle loop, interrupts enabled on line 0, symbolic data registers
@@ -174,7 +185,7 @@ def job_case(case, tier, seed):
         ck.inconclusive.append('case %r: %s' % (case, str(x)[:150]))
         return ck.export()
     ck.nstates += 1
-    label = 'mode %d counter %s start %s ie %d' % (case['mode'], case['counter'] if case['counter'] <= case['nmax'] else '>%d' % case['nmax'], case['start'] if case['start'] <= case['nmax'] else '>%d' % case['nmax'], case['ie'])
+    label = ('t1=%d/%d ' % case['t1'] if case.get('t1') else '') + 'mode %d counter %s start %s ie %d' % (case['mode'], case['counter'] if case['counter'] <= case['nmax'] else '>%d' % case['nmax'], case['start'] if case['start'] <= case['nmax'] else '>%d' % case['nmax'], case['ie'])
     comps = [c for c in compositions(n) if len(c) > 1]
     if tier == 'quick':
         comps = [c for c in comps if c in ([1] * n, [1, n - 1], [n - 1, 1], [2] * (n // 2) + ([1] if n % 2 else []))]
@@ -275,6 +286,8 @@ def replayer(case, comp, part=None):
                 wr(t, 0x206, 1 << 0xA)
                 # timer: mode, MU, then load the counter by a restart when it equals start, else poke directly
                 tw.fn('ti_timer_poke', None, [ctypes.c_void_p, ctypes.c_uint16, ctypes.c_uint32])(t, case['mode'], cnt)
+                if case.get('t1'):
+                    tw.fn('ti_timer1_poke', None, [ctypes.c_void_p, ctypes.c_uint16, ctypes.c_uint32, ctypes.c_uint16])(t, 1, case['t1'][0], case['t1'][1])
                 native.poke(regs, RL, 'pc', LOOP_AT)
                 native.poke(regs, RL, 'ie', case['ie'])
                 native.poke(regs, RL, 'im', 1, 0)
@@ -287,7 +300,7 @@ def replayer(case, comp, part=None):
                 for k in slices:
                     run(t, k)
                 res.append({'pc': native.peek(regs, RL, 'pc'), 'a0': native.peek(regs, RL, 'a', 0), 'ie': native.peek(regs, RL, 'ie'), 'sp': native.peek(regs, RL, 'sp'),
-                            'timer0.counter': tw.fn('ti_timer_counter', ctypes.c_uint32, [ctypes.c_void_p])(t), 'icu.pending': tw.fn('ti_mmio_read', ctypes.c_uint16, [ctypes.c_void_p, ctypes.c_uint16])(t, 0x200)})
+                            'timer0.counter': tw.fn('ti_timer_counter', ctypes.c_uint32, [ctypes.c_void_p])(t), 'timer1.counter': tw.fn('ti_timer1_counter', ctypes.c_uint32, [ctypes.c_void_p])(t), 'icu.pending': tw.fn('ti_mmio_read', ctypes.c_uint16, [ctypes.c_void_p, ctypes.c_uint16])(t, 0x200)})
             return res
         o = native.in_child(body, timeout=240)
         if o[0] == 'signal':
@@ -358,7 +371,7 @@ def run(tier, seed):
     ck.funcs.update(['Processor::Run / Interpreter::Run (idle fast-forward, latch sampling, fetch, dispatch, interrupt block, CoreTiming::Tick)', 'CoreTiming::Tick / Skip (real std::vector of callbacks, virtual calls)',
                      'Timer::Tick/Skip/GetMaxSkip/Restart/UpdateMMIO', 'Btdmp::Tick/Skip/GetMaxSkip', 'ICU::TriggerSingle/Trigger', 'Processor::SignalInterrupt', 'brr', 'moda4 (inc)', 'reti', 'PushPC/PopPC',
                      'MemoryInterface::ProgramRead/DataRead/DataWrite, SharedMemory'])
-    ck.assumptions += ['program: idle self-branch (brr -1) at 0x100, line-0 handler at 0x0006 = inc a0 ; reti; timer 0 -> IRQ 0xA routed to core line 0 and unmasked; timer 1 paused and audio ports disabled (their skip lemmas are C15/C16, composed by CoreTiming.Skip)',
+    ck.assumptions += ['program: idle self-branch (brr -1) at 0x100, line-0 handler at 0x0006 = inc a0 ; reti; timer 0 -> IRQ 0xA routed to core line 0 and unmasked; timer 1 paused - or, in 16 extra cases, auto-restarting with period 1..3 and not routed, so that a second component caps the skip horizon - and audio ports disabled (their skip lemmas are C15/C16, composed by CoreTiming.Skip)',
                        'timer counter and start value: partitioned into {0},...,{n+1},{> n+1} - every 32-bit value lies in exactly one cell, the last cell is a symbolic remainder; count modes single / auto-restart / free-running enumerated; global interrupt enable 0/1; accumulator and flags symbolic',
                        'excluded as the property says: a self-branch that is the last instruction of an active block repeat or the target of rep',
                        'unbounded idle skips: by the skip lemmas of C15/C16 plus CoreTiming.Skip (paper induction)']
@@ -370,6 +383,10 @@ def run(tier, seed):
             for s_ in starts:
                 for ie in ((1, 0) if (mode in (1, 2) and c <= 3 and s_ in (1, 2, nmax + 1)) else (1,)):
                     cases.append({'n': n, 'nmax': nmax, 'mode': mode, 'counter': c, 'start': s_, 'ie': ie})
+    # two active timing components: timer 1 auto-restarting (unrouted) under a few of the timer-0 cases
+    for mode, c, s_ in ((0, nmax + 1, nmax + 1), (0, 3, nmax + 1), (1, 2, 3), (2, 0, nmax + 1)):
+        for t1 in ((1, 2), (2, 1), (3, 3), (0, 2)):
+            cases.append({'n': n, 'nmax': nmax, 'mode': mode, 'counter': c, 'start': s_, 'ie': 1, 't1': t1})
     jobs = [(job_coretiming, (tier, seed))] + [(job_case, (c, tier, seed)) for c in cases]
     for r in core.pmap(_dispatch, jobs):
         if '__error__' in r:
